@@ -70,6 +70,7 @@ Proof.
     apply (Old n). rewrite Heql. right. exact Hin.
   - apply in_tl in Hin. apply (Old t). rewrite Heql. right. exact Hin.
   - destruct (dcb s d); simpl in Hin; [destruct Hin as [E|[E|[]]]; discriminate E|destruct Hin].
+  - destruct (dcb s d); simpl in Hin; [destruct Hin as [E|[E|[]]]; discriminate E|destruct Hin].
 Qed.
 
 Lemma stp_sec_step0 s e s' j : Stp s j -> PI s -> (forall t, posok (thr s t) = true) -> step0 s e = Some s' ->
@@ -101,6 +102,7 @@ Proof.
     apply (st_sec s j HS t _ _ r0 Heql). left. reflexivity.
   - simpl in E. apply (nh_norm l true) in Pt. rewrite E in Pt. simpl in Pt. apply andb_true_iff in Pt.
     destruct Pt as [Pt _]. destruct Hi as [-> | ->]; discriminate Pt.
+  - destruct (dcb s d); simpl in E; inversion E; subst. destruct Hi as [X|X]; discriminate X.
   - destruct (dcb s d); simpl in E; inversion E; subst. destruct Hi as [X|X]; discriminate X.
 Qed.
 
